@@ -48,6 +48,10 @@ func (m *MTProto) makeAuthKey() error { // nolint don't know how to make method 
 
 	// (encoding) p_q_inner_data
 	pq := big.NewInt(0).SetBytes(res.Pq)
+	// SplitPQ divides by zero for pq < 2 and never returns for a prime: refuse what has no two factors
+	if pq.Cmp(big.NewInt(4)) < 0 || pq.ProbablyPrime(0) { // nolint:gomnd 4 is the smallest product
+		return errors.New("handshake: pq is not a product of two primes")
+	}
 	p, q := math.SplitPQ(pq)
 	nonceSecond := tl.RandomInt256()
 	nonceServer := res.ServerNonce
